@@ -316,6 +316,36 @@ def check_C06(c):
         sreqs.append("GETVAR\tc\t" + hx("y"))
     impl2, model2 = both(sreqs, timeout=1200)
     c.add_stream(Stream("statement sequences with final context and follow-up reads", sreqs, impl2, model2))
+    # compound assignment ≡ its expansion also when the right side itself rebinds the target or calls a function, and
+    # when the target name is bound to a *function* in the supplied context (the assignment must replace that binding)
+    rhs_pool = ["1", "y", "(x = 10) == nil ? 100 : 200", "f()", "(y = x)", "[x, (x = 7)]", "(x = 's')", "x = 4", "g", "g + 1", "(g = 3)"]
+    ereqs, emeta = [], []
+    bindings = [[("x", "v", n(2)), ("f", "f", ["const", n(7)])], [("x", "v", n(2)), ("g", "f", ["const", n(3)]), ("f", "f", ["const", n(7)])]]
+    for tgt in ["x", "g", "f"]:
+        for op in ["+", "-", "*", "|", "<<"]:
+            for rhs in rhs_pool:
+                rhs_t = rhs.replace("x", tgt) if tgt != "x" else rhs
+                for bi, bnd in enumerate(bindings):
+                    for variant, text in (("compound", "%s %s= (%s); [%s, y]" % (tgt, op, rhs_t, tgt)), ("expanded", "%s = %s %s (%s); [%s, y]" % (tgt, tgt, op, rhs_t, tgt))):
+                        ereqs.append(ctx_line("c", bnd))
+                        ereqs.append(exec_line("c", text))
+                        ereqs.append("GETVAR\tc\t" + hx(tgt))
+                    emeta.append((tgt, op, rhs_t, bi))
+    ei, em = both(ereqs, timeout=1200)
+    c.add_stream(Stream("compound ≡ expansion with side-effecting right sides and function-bound targets", ereqs, ei, em))
+    for k, (tgt, op, rhs_t, bi) in enumerate(emeta):
+        a_, b_ = ei[6 * k + 1:6 * k + 3], ei[6 * k + 4:6 * k + 6]
+        if [x_.split("\t")[1:] for x_ in a_] != [x_.split("\t")[1:] for x_ in b_]:
+            c.violation("implementation-vs-property", "`%s %s= e` does not behave as `%s = %s %s e`" % (tgt, op, tgt, tgt, op),
+                        {"requests": ereqs[6 * k:6 * k + 6], "implementation": ei[6 * k:6 * k + 6]})
+    # a plain assignment replaces whatever the name was bound to, a function included
+    for tgt in ["g", "f"]:
+        rq = [ctx_line("c", bindings[1]), exec_line("c", "%s = 10; %s + 1" % (tgt, tgt)), "GETVAR\tc\t" + hx(tgt)]
+        ri, rm = both(rq)
+        c.add_stream(Stream("assignment over a function binding", rq, ri, rm))
+        oc = outcome_of(ri[1])
+        if not (oc[0] == "OK" and sexp_str(oc[1]) == "(n 0 11 0)") or "(n 0 10 0)" not in ri[2]:
+            c.violation("implementation-vs-property", "assignment to a name bound to a function did not rebind it", {"requests": rq, "implementation": ri})
     # fixed corpus with expectations stated by the property
     corpus = [("", "(none)"), ("x = 1", "(none)"), ("unbound", "(none)"), ("x = 1; x", "(n 0 1 0)"), ("x = 1; y = x + 1; x = y * 2; x", "(n 0 4 0)"),
               ("a = b = 3; [a, b]", "(l (none) (n 0 3 0))"), ("1; 2; 3", "(n 0 3 0)"), ("x = 1; x = 's'; x", "(s 73)")]
